@@ -33,6 +33,7 @@ type scenario struct {
 	Reg      string `json:"reg"`
 	FailAt   int    `json:"failAt"`
 	RepFails int    `json:"repfails"`
+	Past     string `json:"past"` // what the pooled connection was used for before: "none", "gauto", "lexp"
 	Then     string `json:"then"` // explicit mode: a second statement that matches no row ("upd0", "del0"), or "none"
 }
 
@@ -85,6 +86,9 @@ func main() {
 			warmed[schema.Name] = true
 		}
 		cls := fmt.Sprintf("schema=%s,mode=%s,kind=%s,rows=%d,reg=%s,failAt=%d,repfails=%d", schema.Name, sc.Mode, sc.Kind, sc.Rows, sc.Reg, sc.FailAt, sc.RepFails)
+		if sc.Past != "" && sc.Past != "none" {
+			cls += ",past=" + sc.Past
+		}
 		if sc.Then != "" && sc.Then != "none" {
 			cls += ",then=" + sc.Then
 		}
@@ -131,6 +135,22 @@ func run(lab *atlab.Lab, t *trace.T, sc scenario, schema *atlab.Schema, style at
 	lab.Reset(schema)
 	init, st := stmtFor(sc)
 	lab.Load(schema, init)
+	if sc.Past == "gauto" || sc.Past == "lexp" {
+		// the connection the branch will get from the pool has a past (it is no part of the trace): an autocommit
+		// statement of an earlier global transaction, or an explicit local transaction outside any global transaction
+		pq, pa := schema.SQL(atlab.Stmt{Kind: "ups", Keys: []int{2}, W: 2}, atlab.Style{})
+		if sc.Past == "gauto" {
+			_ = tm.WithGlobalTx(context.Background(), &tm.GtxConfig{Name: "atp1-past", Timeout: 30 * time.Second}, func(ctx context.Context) error {
+				_, err := lab.DB.ExecContext(ctx, pq, pa...)
+				return err
+			})
+		} else if tx, err := lab.DB.BeginTx(context.Background(), nil); err == nil {
+			_, _ = tx.ExecContext(context.Background(), pq, pa...)
+			_ = tx.Commit()
+		}
+		lab.Load(schema, init)
+		lab.Coord.ResetLocks()
+	}
 	snapBefore := lab.Srv.SnapshotHash(schema.Name)
 	t.Add("Start", "mode", sc.Mode, "sig", "start")
 
@@ -258,6 +278,9 @@ func run(lab *atlab.Lab, t *trace.T, sc scenario, schema *atlab.Schema, style at
 	}
 	sort.SliceStable(evs, func(i, j int) bool { return evs[i].seq < evs[j].seq })
 	sig := fmt.Sprintf("%s:%s%d:%s:reg=%s:fired=%v", schema.Name, sc.Kind, sc.Rows, sc.Mode, sc.Reg, fired)
+	if sc.Past != "" && sc.Past != "none" {
+		sig += ":past=" + sc.Past
+	}
 	for _, e := range evs {
 		kv := append([]interface{}{}, e.kv...)
 		kv = append(kv, "sig", sig)
